@@ -6,6 +6,7 @@ import (
 
 	"github.com/hydraide/hydraide/app/core/hydra/swamp"
 	"github.com/hydraide/hydraide/app/core/hydra/swamp/treasure"
+	"github.com/hydraide/hydraide/app/verifhook"
 	hydrapb "github.com/hydraide/hydraide/sdk/go/hydraidego/v3/hydraidepbgo"
 	"google.golang.org/grpc/codes"
 	"google.golang.org/grpc/status"
@@ -41,6 +42,9 @@ func buildPatchExpiredSelectionPredicate(sw swamp.Swamp, filters *hydrapb.Filter
 
 	candidates := collectBucketCandidates(sw, plan.Hints)
 	set := candidateKeySet(candidates)
+	if verifhook.Enabled {
+		verifhook.Trace("claims.pred", "op", "patchexpired", "mode", int(plan.Mode), "cand", candidates)
+	}
 	residual := plan.Residual
 
 	return func(t treasure.Treasure) bool {
@@ -127,6 +131,9 @@ func (g Gateway) PatchExpiredTreasures(ctx context.Context, in *hydrapb.PatchExp
 		howMany = patchExpiredHowManySentinel
 	}
 
+	if verifhook.Enabled {
+		verifhook.Yield("claims.predicate.built", "patchexpired", swampObj)
+	}
 	entries, capReached, perr := swampObj.PatchExpired(howMany, ops, cond, meta, selectionPred, capPred, capMax)
 	if perr != nil {
 		return nil, status.Error(codes.Internal, fmt.Sprintf("PatchExpired failed: %s", perr.Error()))
@@ -244,6 +251,9 @@ func patchExpiredOneSwamp(ctx context.Context, g Gateway, in *hydrapb.PatchExpir
 		howMany = patchExpiredHowManySentinel
 	}
 
+	if verifhook.Enabled {
+		verifhook.Yield("claims.predicate.built", "patchexpired", swampObj)
+	}
 	entries, capReached, perr := swampObj.PatchExpired(howMany, ops, cond, meta, selectionPred, capPred, capMax)
 	if perr != nil {
 		return &hydrapb.PatchExpiredTreasuresManyEntry{Error: protoStr(fmt.Sprintf("PatchExpired failed: %s", perr.Error()))}
